@@ -37,6 +37,22 @@ pub struct Scenario {
 }
 
 pub fn scenarios(prop: &str) -> Vec<Scenario> {
+    if prop == "C07" {
+        // memory safety of the hand-off: all three families (park transition, deadline expiry,
+        // future cancellation), with payload classes of C07's own profile
+        let mut v: Vec<Scenario> = Vec::new();
+        for fam in ["C06", "C13", "C15"] {
+            for mut sc in scenarios(fam) {
+                sc.pay = match sc.pay {
+                    Pay::P4 => Pay::P8,
+                    Pay::Z0 => Pay::P40,
+                    x => x,
+                };
+                v.push(sc);
+            }
+        }
+        return v;
+    }
     let mut v = Vec::new();
     if prop == "C06" {
         // spin-then-park transition: the owner blocks, spins to the end of its spin phase, makes
@@ -220,7 +236,15 @@ pub fn run_part(prop: &str, tier: &str, part: usize, parts: usize) {
                 let o = run_case(prop, &case);
                 evaluations += 1;
                 let cls = |k: &str| o.classes.iter().find(|c| c.0 == k).map(|c| c.1).unwrap_or(0);
-                if prop == "C06" {
+                if prop == "C07" {
+                    if cls("cross_thread_accesses") > 0 {
+                        nontrivial += 1;
+                        if samples.is_empty() {
+                            samples.push(o.sample.clone());
+                        }
+                    }
+                    claimed += cls("cross_thread_accesses") as u64;
+                } else if prop == "C06" {
                     if cls("parked") > 0 {
                         nontrivial += 1;
                         if samples.is_empty() && cls("wake_unpark") > 0 {
@@ -263,6 +287,8 @@ fn grid_for(prop: &str, tier: &str) -> (u32, u32) {
     match (prop, tier == "thorough") {
         ("C06", true) => (24, 48),
         ("C06", false) => (16, 36),
+        ("C07", true) => (40, 40),
+        ("C07", false) => (24, 24),
         (_, true) => (56, 40),
         (_, false) => (30, 22),
     }
@@ -344,7 +370,9 @@ pub fn run(prop: &str, tier: &str, seed: u64) -> i32 {
             "evaluations": evaluations,
             "distinct_nontrivial": nontrivial,
             "exhaustive": fail.is_none(),
-            "rule": if prop == "C06" {
+            "rule": if prop == "C07" {
+                format!("exhaustive grid: {} two-thread scenarios (the park-transition, deadline-expiry and future-cancellation families of C06/C13/C15 with pointer-sized, 16- and 40-byte payloads) x owner progress i in 0..={} x peer progress j in 0..={}; the race, lifetime and waker-instance detectors judge every grid point; non-trivial = at least one cross-thread access into a published signal/slot was checked ({} such accesses in total)", scs.len(), imax, jmax, claimed)
+            } else if prop == "C06" {
                 format!("exhaustive grid: {} two-thread scenarios (blocking recv / send x releasing peer operation(s) incl. close and last-handle drop x capacity {{0,1}} x payload {{4,16 bytes}}); the owner is run to the end of its 256-yield spin phase, then makes i in 0..={} further steps (store thread handle, announce parking, park), then the peer makes j in 0..={} steps, then the fair tail; every grid point is a distinct case; non-trivial = the owner really parked ({} grid points released it through unpark)", scs.len(), imax, jmax, claimed)
             } else if prop == "C13" {
                 format!("exhaustive grid: {} two-thread scenarios (timed operation x peer operation(s) x capacity {{0,1}} x payload {{4,16 bytes, zero-sized}}) x owner progress i in 0..={} x peer progress j in 0..={} one-step schedule segments, then the virtual clock jumps past the deadline and the owner resumes; every grid point is a distinct case; non-trivial = the deadline expired while the operation was registered (or it completed after its deadline because a peer had claimed it: {} grid points)", scs.len(), imax, jmax, claimed)
@@ -368,7 +396,11 @@ pub fn run(prop: &str, tier: &str, seed: u64) -> i32 {
         evaluations,
         nontrivial,
         claimed,
-        if prop == "C06" { "released through unpark" } else { "with the peer's claim racing the cancellation / deadline" },
+        match prop {
+            "C06" => "released through unpark",
+            "C07" => "cross-thread slot/signal accesses checked",
+            _ => "with the peer's claim racing the cancellation / deadline",
+        },
         t0.elapsed().as_secs_f64(),
         code
     );
